@@ -26,6 +26,10 @@ import warnings
 
 HOSTILE = bool(os.environ.get("VERIF_HOSTILE"))
 if HOSTILE:
+    # a production install: the packages of the "test" / "pre-commit" extras of pyproject.toml are not importable
+    for _opt in ("crc", "pytest", "pytest_cov", "pytest_asyncio", "coverage", "pre_commit", "_pytest"):
+        sys.modules.setdefault(_opt, None)
+if HOSTILE:
     # warnings are errors in this pass (the interpreter was also started with -W error)
     warnings.simplefilter("error")
 else:
